@@ -1,8 +1,138 @@
-import KatdalModel.Model.Weights
+/-
+  C15 — Weights, excision and averaging are reconstructed as documented.
+
+  "Visibility weights of a v4 data set equal stored weight times per-channel weight, divided by the
+   product of the two inputs' autocorrelation powers at the same dump and channel when the stream
+   declares unscaled stored weights (and the unscaled weights are that product multiplied back when
+   it does not), with a tiny positive weight substituted where an autocorrelation is zero or not
+   finite; HDF5 v3 weights are the product of the two stored weight arrays and absent weights read
+   as one. The excision fraction equals one minus the unscaled weight rounded to a whole number of
+   correlator dumps over the accumulations per dump, the optional Van Vleck correction changes only
+   the real autocorrelations, monotonically, and results do not depend on chunking along the
+   baseline axis. Averaging in time and frequency returns the weight-averaged unflagged
+   visibilities, the summed weights and the AND (or optionally OR) of the flags of each bin."
+
+  Model: KatdalModel/Model/Weights.lean (mirror of vis_flags_weights.py, visdatav4.py excision
+  transforms, van_vleck wiring, averager.py, h5datav3.py weights transform) next to the documented
+  meaning (`kernelSpec`, `weightsRowSpec`, `vanVleckRowSpec`, `binSpec`).
+  Floats: `Scalar K` classification over any linearly ordered field `K`; rounding is not modelled.
+-/
+import KatdalModel.Lemmas.WeightsList
+import KatdalModel.Lemmas.WeightsField
 open Np Weights
 
 namespace C15
 
-theorem placeholder : (1 : Nat) = 1 := rfl
+/-! ## 1. `corrprod_to_autocorr` -/
+
+section lookup
+variable {α : Type} [DecidableEq α]
+
+/-- **autocorr_lookup**: for every correlation product `(x, y)` the two returned indices point
+    (through `auto_indices`) at products `(x, x)` and `(y, y)`, wherever those sit in the ordering
+    and whatever the polarisations of `x` and `y` are. -/
+theorem autocorr_lookup (cps : List (α × α)) (ai i1 i2 : List Nat)
+    (h : corrprodToAutocorr cps = .ok (ai, i1, i2)) :
+    i1.length = cps.length ∧ i2.length = cps.length ∧
+    ∀ (b : Nat) (x y : α), cps[b]? = some (x, y) →
+      ∃ k1 k2 p1 p2, i1[b]? = some k1 ∧ i2[b]? = some k2 ∧ ai[k1]? = some p1 ∧ ai[k2]? = some p2 ∧
+        cps[p1]? = some (x, x) ∧ cps[p2]? = some (y, y) := by
+  unfold corrprodToAutocorr at h
+  cases h1 : mapME (fun p => lookupKey (autosFrom 0 cps) p.1) cps with
+  | error e => simp [h1] at h
+  | ok r1 =>
+    cases h2 : mapME (fun p => lookupKey (autosFrom 0 cps) p.2) cps with
+    | error e => simp [h1, h2] at h
+    | ok r2 =>
+      simp [h1, h2] at h
+      obtain ⟨rfl, rfl, rfl⟩ := h
+      obtain ⟨hl1, hp1⟩ := mapME_ok h1
+      obtain ⟨hl2, hp2⟩ := mapME_ok h2
+      refine ⟨hl1, hl2, ?_⟩
+      intro b x y hb
+      obtain ⟨k1, hk1, hf1⟩ := hp1 b (x, y) hb
+      obtain ⟨k2, hk2, hf2⟩ := hp2 b (x, y) hb
+      obtain ⟨p1, hp1'⟩ := lookupKey_ok hf1
+      obtain ⟨p2, hp2'⟩ := lookupKey_ok hf2
+      have m1 := autosFrom_mem cps 0 x p1 (List.mem_of_getElem? hp1')
+      have m2 := autosFrom_mem cps 0 y p2 (List.mem_of_getElem? hp2')
+      refine ⟨k1, k2, p1, p2, hk1, hk2, ?_, ?_, by simpa using m1.2, by simpa using m2.2⟩
+      · simp [List.getElem?_map, hp1']
+      · simp [List.getElem?_map, hp2']
+
+example : corrprodToAutocorr [("a", "bv"), ("bv", "bv"), ("a", "a"), ("bv", "a")]
+    = .ok ([1, 2], [1, 0, 1, 0], [0, 0, 1, 1]) := by decide
+
+/-- `auto_indices` is exactly the increasing list of positions of autocorrelation products -/
+theorem autocorr_indices (cps : List (α × α)) (ai i1 i2 : List Nat)
+    (h : corrprodToAutocorr cps = .ok (ai, i1, i2)) :
+    List.Pairwise (· < ·) ai ∧ ∀ p : Nat, p ∈ ai ↔ ∃ a, cps[p]? = some (a, a) := by
+  unfold corrprodToAutocorr at h
+  cases h1 : mapME (fun p => lookupKey (autosFrom 0 cps) p.1) cps with
+  | error e => simp [h1] at h
+  | ok r1 =>
+    cases h2 : mapME (fun p => lookupKey (autosFrom 0 cps) p.2) cps with
+    | error e => simp [h1, h2] at h
+    | ok r2 =>
+      simp [h1, h2] at h
+      obtain ⟨rfl, rfl, rfl⟩ := h
+      refine ⟨autosFrom_sorted cps 0, ?_⟩
+      intro p
+      constructor
+      · intro hp
+        simp at hp
+        obtain ⟨l, hl⟩ := hp
+        exact ⟨l, by simpa using (autosFrom_mem cps 0 l p hl).2⟩
+      · intro ⟨a, ha⟩
+        have := autosFrom_complete cps 0 p a ha
+        simp only [Nat.zero_add] at this
+        simp
+        exact ⟨a, this⟩
+
+example : ∃ i1 i2, corrprodToAutocorr [("a", "b"), ("b", "b"), ("a", "a")] = .ok ([1, 2], i1, i2) :=
+  ⟨[1, 0, 1], [0, 0, 1], by decide⟩
+
+/-- a missing autocorrelation ⇒ `KeyError` (and nothing else ever fails) -/
+theorem autocorr_lookup_keyerror (cps : List (α × α)) (e : Err) (h : corrprodToAutocorr cps = .error e) :
+    e = .key ∧ ∃ x y, (x, y) ∈ cps ∧ ((∀ p : Nat, cps[p]? ≠ some (x, x)) ∨ (∀ p : Nat, cps[p]? ≠ some (y, y))) := by
+  have key : ∀ (a : α), (∀ q ∈ autosFrom 0 cps, q.1 ≠ a) → ∀ p : Nat, cps[p]? ≠ some (a, a) := by
+    intro a hq p hp
+    have := autosFrom_complete cps 0 p a hp
+    exact hq _ this rfl
+  unfold corrprodToAutocorr at h
+  cases h1 : mapME (fun p => lookupKey (autosFrom 0 cps) p.1) cps with
+  | error e1 =>
+    simp [h1] at h
+    subst h
+    obtain ⟨⟨x, y⟩, hm, hf⟩ := mapME_error h1
+    obtain ⟨he, hq⟩ := lookupKey_error hf
+    exact ⟨he, x, y, hm, Or.inl (key x hq)⟩
+  | ok r1 =>
+    cases h2 : mapME (fun p => lookupKey (autosFrom 0 cps) p.2) cps with
+    | error e2 =>
+      simp [h1, h2] at h
+      subst h
+      obtain ⟨⟨x, y⟩, hm, hf⟩ := mapME_error h2
+      obtain ⟨he, hq⟩ := lookupKey_error hf
+      exact ⟨he, x, y, hm, Or.inr (key y hq)⟩
+    | ok r2 => simp [h1, h2] at h
+
+example : corrprodToAutocorr [("a", "b"), ("a", "a")] = .error .key := by decide
+
+/-- conversely: when every input that occurs has its autocorrelation, the lookup succeeds -/
+theorem autocorr_lookup_total (cps : List (α × α))
+    (hall : ∀ x y, (x, y) ∈ cps → (∃ p : Nat, cps[p]? = some (x, x)) ∧ (∃ p : Nat, cps[p]? = some (y, y))) :
+    ∃ ai i1 i2, corrprodToAutocorr cps = .ok (ai, i1, i2) := by
+  have tot : ∀ a, (∃ p : Nat, cps[p]? = some (a, a)) → ∃ k, lookupKey (autosFrom 0 cps) a = .ok k := by
+    intro a ⟨p, hp⟩
+    apply lookupKey_total
+    exact ⟨(a, 0 + p), autosFrom_complete cps 0 p a hp, rfl⟩
+  obtain ⟨r1, h1⟩ := mapME_total (f := fun p => lookupKey (autosFrom 0 cps) p.1) (l := cps)
+    (fun ⟨x, y⟩ hm => tot x (hall x y hm).1)
+  obtain ⟨r2, h2⟩ := mapME_total (f := fun p => lookupKey (autosFrom 0 cps) p.2) (l := cps)
+    (fun ⟨x, y⟩ hm => tot y (hall x y hm).2)
+  exact ⟨(autosFrom 0 cps).map (·.2), r1, r2, by simp [corrprodToAutocorr, h1, h2]⟩
+
+end lookup
 
 end C15
